@@ -108,14 +108,20 @@ def generate(prop, rng, tier):
                             [6, 1, 2, 1])[0]
         else:
             t = rng.choices(['oop', 'ip', 'reject_in', 'reject_out',
-                             'scribble', 'raw'], [3, 5, 1, 1, 1, 1])[0]
+                             'scribble', 'raw', 'deriv_mutate'],
+                            [3, 5, 1, 1, 1, 1, 0.6])[0]
         op = {'t': t, 'i': rng.randint(0, 2)}
+        if t == 'deriv_mutate':
+            op['j'] = rng.randint(0, 2)
         if t in ('ip', 'scribble', 'reject_out'):
             op['fill'] = rng.choice(GARBAGE)
         if t in ('ip', 'alias'):
             op['olay'] = rng.choice(LAYOUTS)
         if t == 'alias':
             op['j'] = rng.randint(0, 1)
+            # a second aliased call on the same instance, on what the first
+            # one left in y (seeds b10, b12: state kept from the first call)
+            op['twice'] = rng.random() < 0.35
         if t == 'reject_in':
             # (an element of a space that differs only in weighting, dtype
             # ... CAN be converted to a domain element and is accepted: near
@@ -265,6 +271,7 @@ class Run(object):
         self.k1, self.k2 = plan['garbage']
         self.refs = {}
         self.replica = None
+        self.held = []
 
     def dig(self, y):
         """Result bits for the event log -- not for FFTW-backed recipes:
@@ -417,7 +424,39 @@ class Run(object):
                       '{:.3g}'.format(self.k1, self.k2, d))
         self.ctx.event('oop', i, self.dig(y))
         self.note(i, 'oop', self.k1)
+        if SP.is_elem(y) and len(self.held) < 6:
+            # the caller keeps the result: later calls must not change it
+            self.held.append((i, y, elem_snapshot(y)))
         return y
+
+    def check_held(self):
+        for i, y, snap in self.held:
+            if not snapshot_equal_bits(snap, y):
+                self.viol('earlier-result-modified',
+                          'a result returned earlier by op(x{}) and still '
+                          'held by the caller was changed by a later call on '
+                          'the same operator'.format(i))
+
+    def do_deriv_mutate(self, o):
+        """The caller asks for op.derivative(x) (whatever it returns or
+        raises), then changes x in place -- its own element -- and calls
+        again: nothing remembered from the first x may enter (seed b03)."""
+        i, j = o['i'], o.get('j', 0)
+        x = self.xs[i]
+        if not SP.is_elem(x) or not SP.is_elem(self.xs[j]) or i == j:
+            raise Reject('no element to change')
+        try:
+            with seams.allocator(self.k1, salt=27):
+                self.op.derivative(x)
+            self.ctx.fired('derivative-taken-then-x-changed')
+        except Exception:
+            self.ctx.probe('no-derivative')
+        # results that are views of x change with x: the caller knows
+        self.held = []
+        with seams.allocator('zero'):
+            x.lincomb(0.5, x, 0.5, self.xs[j])
+        self.refs.pop(i, None)
+        return self.do_oop({'t': 'oop', 'i': i})
 
     def do_ip(self, o):
         i = o['i']
@@ -510,6 +549,23 @@ class Run(object):
             if _bits(other) != _bits(x[1 - o.get('j', 0)]):
                 self.viol('alias-other-operand',
                           'LinComb(x, out=x[j]) modified the other component')
+        if o.get('twice') and not lincomb:
+            with seams.allocator('zero'):
+                fresh = R.build(copy.deepcopy(self.cfg), None)
+                try:
+                    yref2 = fresh(_copy(yref))
+                except Exception:
+                    yref2 = None
+            if yref2 is not None:
+                with seams.allocator(self.k1, salt=26, fired=fired):
+                    ret = self.call('alias', lambda: op(y, out=y))
+                ok, d = SP.close(y, yref2, self.tol(yref2, yref, x))
+                self.ctx.fired('alias-second-call-same-instance')
+                if not ok:
+                    self.viol('alias-second-call',
+                              'a second P(y, out=y) on the same instance '
+                              'differs from P(P(x)) of a fresh instance by '
+                              '{:.3g}'.format(d))
         self.ctx.event('alias', i, self.dig(out))
         okx, dx = SP.close(yref, x, 0) if op.domain == op.range else (False, 1)
         if not okx:
@@ -1093,11 +1149,12 @@ def _execute(prop, plan, ctx):
     fn = {'oop': run.do_oop, 'ip': run.do_ip, 'alias': run.do_alias,
           'reject_in': run.do_reject_in, 'reject_out': run.do_reject_out,
           'scribble': run.do_scribble, 'alias_held': run.do_alias_held,
-          'raw': run.do_raw}
+          'raw': run.do_raw, 'deriv_mutate': run.do_deriv_mutate}
     done = 0
     for o in plan['ops']:
         try:
             fn[o['t']](o)
+            run.check_held()
             done += 1
         except Reject:
             if done == 0 and o is plan['ops'][-1]:
